@@ -17,14 +17,16 @@ def anchor_patterns(prop):
     raise HarnessError("property %s not found in properties.jsonl" % prop)
 
 
-def run_monitors(ctx, res, monitors, spec_filter=None, prefixes=None, specs_override=None):
+def run_monitors(ctx, res, monitors, spec_filter=None, prefixes=None, specs_override=None,
+                 resume_legs=(3, 6, 10, 15, 21)):
     tier = "thorough" if ctx.thorough else "quick"
     sp = specs_override if specs_override is not None else specmod.families(tier)
     if spec_filter is not None:
         sp = [s for s in sp if spec_filter(s)]
     k = 2 if ctx.thorough else 1
     baselines = [0, 1, 2, 3] if ctx.thorough else [0, 1 + ctx.seed % 3]
-    bad, st = envdrive.explore(sp, monitors, 1, baselines, ctx.cores, derive=specmod.fast_variant)
+    bad, st = envdrive.explore(sp, monitors, 1, baselines, ctx.cores, derive=specmod.fast_variant,
+                              resume_legs=resume_legs)
     sp = sp + st.get("derived_specs", [])
     if ctx.thorough:
         # two deviations around the constant-median baseline on the cheaper specs
